@@ -13,7 +13,7 @@ const { SimFs } = require('./simfs')
 const smap = require('./smap')
 
 // two pairs share a base name in different directories
-const FILES = ['/sim/app/a.js', '/sim/app/lib/b.js', '/sim/other/a.js', '/sim/c.js', '/sim/app/lib/deep/b.js', '/sim/other/e.js', '/sim/app/a\u00f1adir.js', '/sim/app/gen\\util.js', '/sim/app/(shop)/cart.js', '/sim/Program Files (x86)/svc/index.js', '/sim/app/[id]/page:1.js']
+const FILES = ['/sim/app/a.js', '/sim/app/lib/b.js', '/sim/other/a.js', '/sim/c.js', '/sim/app/lib/deep/b.js', '/sim/other/e.js', '/sim/app/a\u00f1adir.js', '/sim/app/gen\\util.js', '/sim/app/(shop)/cart.js', '/sim/Program Files (x86)/svc/index.js', '/sim/app/[id]/page:1.js', '/rootfile.js', '/sim/app/a$$b/y.js', "/sim/app/a$&b/x$'.js"]
 
 function cfgOf (chain, comments) {
   return {
@@ -212,8 +212,8 @@ function execute (plan, table) {
     if (rwCfg.chainSourceMap && ver.omap) {
       const L = siteLine - 1
       const om = ver.omap
-      if (om.split && L >= om.split) return { path: path.join(path.dirname(fileObj.path), om.source2), line: (L - om.split) * om.mult + ((om.split - 1) * om.mult + om.off) + 1, chained: true, second: true }
-      return { path: path.join(path.dirname(fileObj.path), om.source), line: L * om.mult + om.off + 1, chained: true }
+      if (om.split && L >= om.split) return { path: om.source2.startsWith('/') ? om.source2 : path.join(path.dirname(fileObj.path), om.source2), line: (L - om.split) * om.mult + ((om.split - 1) * om.mult + om.off) + 1, chained: true, second: true }
+      return { path: om.source.startsWith('/') ? om.source : path.join(path.dirname(fileObj.path), om.source), line: L * om.mult + om.off + 1, chained: true }
     }
     return { path: fileObj.path, line: siteLine, chained: false }
   }
